@@ -286,8 +286,8 @@ def uri_gate(ctx, at, cfg):
     r.check("R9.3", anchored and grp, "content-type-pattern-anchored", REL,
             "the data: content-type pattern is not anchored at both ends / lost its content_type group: a permitted type "
             "inside the payload would be accepted", detail={"anchored": anchored})
-    uses_match = any(isinstance(n, ast.Call) and norm(n.func) == "data_content_type.match" and norm(n.args[0]) == "uri.path"
-                     for n in ast.walk(loop))
+    uses_match = any(isinstance(n, ast.Call) and norm(n.func).endswith("data_content_type.match") and n.args and norm(n.args[0]).endswith(".path")
+                     for m_ in ctx.repo.cls(REL, "Filter").methods.values() for n in ast.walk(m_.node))
     r.check("R9.3", uses_match, "content-type-from-path", "%s:%d" % (REL, loop.lineno), "the content type is not matched against the parsed URL's path")
     # statements after the parse: the gate proper
     gate = [s for s in loop.body if isinstance(s, ast.If)]
